@@ -135,7 +135,8 @@ package j2p
 //@   ensures element: !old(self.inskip) && old(self.globalFieldDesc) == nil ==> r0 == nil && self.sp == old(self.sp) && same(self.p.Buf, old(self.p.Buf)) && len(self.p.Buf) == old(len(self.p.Buf))
 //@   modifies self.inskip, self.sp, self.globalFieldDesc, self.stk[0:256], self.p.Buf, bytes(self.p.Buf)
 
-// OnString: as the other scalar handlers (a string for a field that is neither string nor bytes is a mismatch).
+// OnString: as the other scalar handlers (a string for a field that is neither string nor bytes is a mismatch; a string
+// without a pending member is an element, and only of a LIST field).
 // base64 decoding is external: trusted to return a slice of its own.
 //@ spec decodeBinary
 //@   trusted
@@ -145,6 +146,7 @@ package j2p
 //@   requires st: vst(self) && valok(self) && !samerg(v, self.p.Buf)
 //@   requires schema: (self.globalFieldDesc != nil ==> self.globalFieldDesc.typ != nil) && (self.stk[int(self.sp)].state.fieldDesc != nil ==> self.stk[int(self.sp)].state.fieldDesc.typ != nil)
 //@   ensures skipped: old(self.inskip) ==> r0 == nil && !self.inskip && same(self.p.Buf, old(self.p.Buf)) && len(self.p.Buf) == old(len(self.p.Buf)) && self.sp == old(self.sp)
+//@   ensures nofield: !old(self.inskip) && old(self.globalFieldDesc) == nil && (old(self.stk[int(self.sp)].state.fieldDesc) == nil || old(self.stk[int(self.sp)].state.fieldDesc.typ.typ) != proto.LIST) ==> r0 != nil      // a string that is not a member's value is accepted only as an element of a LIST field: an array given for a singular field is a mismatch
 //@   ensures done: r0 == nil ==> !self.inskip
 //@   modifies self.inskip, self.sp, self.globalFieldDesc, self.stk[0:256], self.p.Buf, bytes(self.p.Buf)
 
